@@ -24,7 +24,7 @@ import (
 // unusable.
 func escapeTemplate(tmpl *Template, node parse.Node, name string) error {
 	c, _ := tmpl.esc.escapeTree(context{}, node, name, 0)
-	var err error
+	var err *Error
 	if c.err != nil {
 		err, c.err.Name = c.err, name
 	} else if c.state != stateText {
@@ -37,6 +37,11 @@ func escapeTemplate(tmpl *Template, node parse.Node, name string) error {
 			t.text.Tree = nil
 			t.Tree = nil
 		}
+		// Templates that call this one must fail as well, rather than find a stale record of
+		// this template having been escaped.
+		calleeErr := *err
+		calleeErr.Description = fmt.Sprintf("template %q could not be escaped: %s", name, err.Description)
+		tmpl.esc.output[name] = context{state: stateError, err: &calleeErr}
 		return err
 	}
 	tmpl.esc.commit()
@@ -497,9 +502,10 @@ func (e *escaper) escapeTree(c context, node parse.Node, name string, line int) 
 		return out, dname
 	}
 	t := e.template(name)
-	if t == nil {
-		// Two cases: The template exists but is empty, or has never been mentioned at
-		// all. Distinguish the cases in the error messages.
+	if t == nil || t.Tree == nil {
+		// Three cases: The template exists but is empty, it could not be escaped earlier (and was
+		// therefore emptied), or it has never been mentioned at all. Distinguish the first two
+		// from the last in the error messages.
 		if e.ns.set[name] != nil {
 			return context{
 				state: stateError,
